@@ -46,7 +46,10 @@ _TAGS = ['TagA', 'TagB', 'TagC', 'TagX']
 def strategy_(draw, tier):
   recipe = draw(dags.dag(
       max_nodes=10, min_nodes=3, bts=('Config', 'Config', 'Partial'), tags=True,
-      kinds=['B', 'B', 'list', 'list', 'tuple', 'dict', 'dict', 'nt', 'Bpos', 'Bmut', 'Bpo', 'set', 'holder', 'Bdictcfg'],
+      kinds=['B', 'B', 'list', 'list', 'tuple', 'dict', 'dict', 'nt', 'Bpos', 'Bmut', 'Bpo', 'set', 'holder', 'Bdictcfg',
+             # every other node kind of the shared generator (each once)
+             'box', 'TV', 'ddict', 'mdict', 'kdict', 'fset', 'ltuple', 'ntuple', 'Bann', 'Bmut1', 'Bmutnest',
+             'Bpo3', 'Bdc', 'Bempty', 'AFP', 'odict', 'dcinst', 'Bclash'],
       fns=['things:f2', 'things:h1', 'things:Base', 'things:LeafCls'], root_kinds=['B', 'Bpos', 'Bpo', 'Bdictcfg'],
       p_alias=0.8, allow_copyof=False))
   op = draw(st.sampled_from(DEEP + SHALLOW))
